@@ -87,7 +87,11 @@ type runner struct {
 	skipped  int
 	stuck    string
 	closed   bool
+	cookie   []byte  // cookie learnt from the device for floodSrc
+	cookieOf ref.Key // device identity the cookie was issued under
 }
+
+var floodSrc = netip.MustParseAddrPort("198.51.100.77:7777")
 
 func pkOf(k ref.Key) (o device.NoisePublicKey) { copy(o[:], k[:]); return }
 
@@ -585,6 +589,45 @@ func (r *runner) do(a string) bool {
 		r.w.Dev.VerifForceUnderLoad(0)
 		r.harvest(out)
 		r.record("ENet [DHs 6 0]")
+	case "ratelimit": // ratelimit N : N handshake initiations with valid MAC1 AND valid MAC2 from one address while under load
+		if !r.up() {
+			r.skipped++
+			return true
+		}
+		r.w.Dev.VerifForceUnderLoad(5 * time.Second)
+		if r.cookie == nil || r.cookieOf != r.w.DevPub {
+			// learn a cookie: MAC1-valid initiation without MAC2 -> cookie reply (kind 6)
+			st := ref.CreateInitiation(ref.NewPrivate(), ref.NewPrivate(), r.w.DevPub, ref.Key{}, 7, ref.Tai64n(time.Now()))
+			out := r.w.Inject(floodSrc, st.Msg)
+			r.record("ENet [DHs 6 0]")
+			r.cookie = nil
+			for _, s := range out.Sent {
+				if _, c, err := ref.OpenCookieReply(s.Data, r.w.DevPub, st.Mac1); err == nil {
+					r.cookie, r.cookieOf = c, r.w.DevPub
+				}
+			}
+			if r.cookie == nil {
+				r.w.Dev.VerifForceUnderLoad(0)
+				r.skipped++
+				return true
+			}
+		}
+		var ds []sim.Dgram
+		var g []string
+		for i := 0; i < arg(1); i++ {
+			st := ref.CreateInitiation(ref.NewPrivate(), ref.NewPrivate(), r.w.DevPub, ref.Key{}, 7, ref.Tai64n(time.Now()))
+			ds = append(ds, sim.Dgram{From: floodSrc, Data: ref.WithCookie(st.Msg, r.w.DevPub, r.cookie)})
+			g = append(g, "DHs 7 0")
+		}
+		out := r.w.InjectBatch(ds...)
+		r.w.Dev.VerifForceUnderLoad(0)
+		for _, s := range out.Sent {
+			if len(s.Data) == ref.CookieSize && s.Data[0] == ref.TypeCookie {
+				r.cookie = nil // the cookie was not honoured (secret rotated): learn a new one next time
+			}
+		}
+		r.harvest(out)
+		r.record("ENet [" + strings.Join(g, ";") + "]")
 	default:
 		r.skipped++
 	}
@@ -620,6 +663,7 @@ var stallBranches = []string{
 	"tun-noroute", "tun-badversion", "tun-short", "tun-empty", "tun-peer-stopped", "tun-delivered", "tun-no-endpoint-send",
 	"net-runt", "net-type", "net-hsize", "net-index", "net-expired", "net-auth", "net-replay", "net-badlen", "net-badsrc",
 	"net-badver", "net-keepalive", "net-data", "net-mac1", "net-badinit", "net-oldts", "net-badresp", "net-cookie", "net-underload",
+	"net-ratelimited",
 	"net-removed-peer", "staged-flush-remove", "staged-flush-down",
 }
 
@@ -708,6 +752,8 @@ func stallScenario(cfg [3]int, branch string, items int) Case {
 		unit = "net " + rep("h badresp", batch, ";")
 	case "net-cookie":
 		unit = "net " + rep("h cookie", batch, ";")
+	case "net-ratelimited":
+		unit = fmt.Sprintf("ratelimit %d", batch)
 	case "net-underload":
 		unit = "load"
 	case "net-removed-peer":
@@ -730,6 +776,9 @@ func stallScenario(cfg [3]int, branch string, items int) Case {
 	}
 	if unit == "load" || strings.HasPrefix(unit, "cycle") {
 		perUnit = 1
+	}
+	if strings.HasPrefix(unit, "ratelimit") {
+		perUnit = batch
 	}
 	for sent := 0; sent < items; sent += perUnit {
 		before := r.w.SlowSteps
@@ -794,6 +843,7 @@ func directedPlans() (plans [][]string, names []string) {
 	add("persistent-keepalive", "add 3 pka", "tun r3", "down", "up", "down", "add 1 pka", "up", "remove 3", "add 3 pka", "remove 1", "removeall")
 	add("removal", "tun r3,r3,r3", "remove 3", "remove 1", "net t 1 -1 ok", "tun r1", "removeall", "tun r2", "net t 2 -1 ok", "add 1 ep", "net h init 1", "net t 1 -1 ka", "tun r1")
 	add("identity-change", "tun r3", "setkey", "tun r1", "tun r2,r2", "net t 1 -1 ok", "net h init 1", "net t 1 -1 ka", "tun r1", "net h resp 2", "tun r2")
+	add("rate-limited-under-load", "ratelimit 12", "tun r3", "ratelimit 8", "net h init 1", "ratelimit 3", "setkey", "ratelimit 9", "down", "up", "ratelimit 7")
 	add("close-with-staged", "tun r3,r3,r3", "tun r1", "close", "gc", "tun r1")
 	add("close-down", "tun r3", "down", "close", "gc")
 	return
@@ -852,7 +902,11 @@ func randomPlan(r *rand.Rand, n int) []string {
 		case x < 97:
 			p = append(p, "setkey")
 		case x < 98:
-			p = append(p, "load")
+			if r.Intn(2) == 0 {
+				p = append(p, fmt.Sprintf("ratelimit %d", 6+r.Intn(10)))
+			} else {
+				p = append(p, "load")
+			}
 		case x < 99:
 			p = append(p, "removeall")
 		default:
